@@ -83,6 +83,17 @@ CLAIMED["C02"] = dict(
    note=TB + "Modelled, not verified: hashlib.sha1 (reference for the SHA-1 model), random.SystemRandom (replaced by a recording PRNG in the harness), bytes.fromhex.",
    design="DESIGN.md section 4, C02")
 
+CLAIMED["C03"] = dict(
+   technique="Lean 4 proof (invariant by induction over events of a connection machine generic in the handler script; per-command script lemmas against a strict client grammar) + differential execution of command programs",
+   text="Theorems in lean/MimicProps/C03.lean: for every handler script (no life-cycle ops) and every interleaving of internal events (application resuming, "
+        "client blocking/unblocking, kills, client EOF) the bytes written for a command are the script's emissions or a prefix closed by exactly one ERR, and "
+        "an idle connection writes nothing (quiescence); for every command of the supported set, both DEPRECATE_EOF settings and every application plan the "
+        "handler script's undisturbed response is accepted by a strict client grammar (OK / ERR / complete result set / cursor-open / prepare-OK block / "
+        "field list / nothing for no-reply commands incl. unknown ids). Tie: random command programs through the real Connection compared event by event "
+        "with Mimic.Conn + Mimic.Script; strict wire-level decoder, consecutive sequence ids and silence after the response as oracle.",
+   note=TB + "Modelled, not verified: asyncio (A1-A4 of DESIGN.md); the 32 KiB threshold flush is abstracted (responses smaller than the buffer); sequence numbers are checked by the oracle, not in Lean.",
+   design="DESIGN.md section 4, C03")
+
 REASON_PENDING = "check not built yet (work in progress; see DESIGN.md section 9)"
 
 m = {
